@@ -128,6 +128,115 @@ def count_pts(b):
     return len(b[0]) + sum(count_pts(a) for a in (b[1] or []))
 
 
+# ---- documents longer than a read buffer ---------------------------------------------------------------------------------------
+# A reader may consume the stream in blocks (io.DEFAULT_BUFFER_SIZE = 8192, 64 KiB, 128 KiB, 1 MiB, …).  Whatever lies across the
+# end of a block — a comment, a number, a run of blanks, a bracket, a colour marker — must be read as if the stream were delivered
+# character by character.  `render_blocks` lays a long document out so that something of a chosen kind lies across EVERY multiple of
+# `step` characters from the start of the stream; with step = 512 that covers every power-of-two block size from 512 up to the
+# length of the document at once, with step = 1000 the decimal ones.
+BLOCK_KINDS = ["comment", "comment-start", "comment-eol", "blank", "bracket-last", "bracket-first", "number", "point", "marker"]
+COMMENT_BODIES = [" stem point {n}, traced with the 40x objective", " {n}", " 1 2 3 4", " (1 2 3 4)", " ) | (", " ( (Axon) (0 0 0 1) )", "; ;; {n} ;",
+                  " Color Red", " -1.5e1 nan", "x", " end of contour {n} ( | )"]
+
+
+def gen_long(rng, npts, depth=0):
+    """a tree of the grammar with about `npts` points: long branches (hundreds to thousands of points), splits nested a few levels"""
+    own = npts if depth >= 4 or npts < 40 or rng.random() < 0.15 else max(1, int(npts * rng.choice([0.1, 0.3, 0.5, 0.8])))
+
+    def num():
+        return rng.choice(NUMS) if rng.random() < 0.3 else f"{rng.randint(-99999, 99999) / 100:.2f}"
+
+    pts = [[num(), num(), num(), f"{rng.randint(1, 999) / 100:.2f}"] for _ in range(max(1, own))]
+    rest = npts - own
+    if rest <= 0:
+        return (pts, None)
+    nalt = rng.choice([1, 2, 2, 3])
+    cuts = sorted(rng.randint(0, rest) for _ in range(nalt - 1))
+    shares = [b - a for a, b in zip([0] + cuts, cuts + [rest])]
+    split = [gen_long(rng, s, depth + 1) if s > 0 else ([], None) for s in shares]
+    return (pts, split)
+
+
+def _blanks(rng, n):
+    return "".join(rng.choice("    \n\t") for _ in range(n))
+
+
+def render_blocks(rng, doc, step, kinds, p_comment):
+    """→ (text, {kind: number of multiples of `step` it lies across}); comments, blanks and colour markers only where `render` puts them"""
+    label, branch, top_color = doc
+    units = []
+
+    def rb(b):
+        pts, split = b
+        units.extend(pts)
+        if split is not None:
+            units.append("(")
+            for k, alt in enumerate(split):
+                if k:
+                    units.append("|")
+                rb(alt)
+            units.append(")")
+
+    rb(branch)
+    units.append(")")
+    out, pos, used = [], 0, {}
+
+    def emit(s):
+        nonlocal pos
+        out.append(s)
+        pos += len(s)
+
+    emit(rng.choice(["", "", "\n", "  ", "; " + "file header " * rng.randint(1, 4) + "\n"]))
+    emit("(" + rng.choice(["", " ", "\n "]) + ("(Color " + top_color + ")\n " if top_color else "") + "(" + label + ")\n")
+    prev_point = False
+    for n, u in enumerate(units):
+        s = "(" + " ".join(u) + ")" if isinstance(u, list) else u
+        nb = (pos // step + 1) * step                    # index of the first character of the next block
+        if pos + len(s) + 120 < nb:                      # far from the end of the block: ordinary layout (at most 65 characters after the unit)
+            emit(s)
+            prev_point = isinstance(u, list)
+            if prev_point and rng.random() < 0.05:
+                emit(" (Color " + rng.choice(COLORS) + ")")
+                prev_point = False                       # at most one marker after a point, as in `render`
+            emit(rng.choice([" ", "\n", "\n  ", "  "]))
+            if rng.random() < p_comment:
+                emit(";" + rng.choice(COMMENT_BODIES).format(n=n)[:40] + "\n")
+            continue
+        room = nb - pos                                  # > 55 characters are left in this block
+        kind = rng.choice(kinds)
+        if kind in ("number", "point") and not isinstance(u, list) or kind == "marker" and not prev_point:
+            kind = "comment" if "comment" in kinds else "blank"
+        if kind == "comment":                            # text of the comment on both sides of the boundary
+            c = ";" + rng.choice(COMMENT_BODIES).format(n=n) + " " * rng.randint(0, 30) + rng.choice(["traced", "7", ")", "|", "(", "0.5"]) + "\n"
+            d = rng.randint(1, min(len(c) - 3, room - 1))        # c[:d+1] is in this block, c[d+1:] (≥ 1 character of text and the line break) in the next
+            emit(_blanks(rng, room - 1 - d) + c)
+        elif kind == "comment-start":                    # the ";" is the last character of the block
+            emit(_blanks(rng, room - 1) + ";" + rng.choice(COMMENT_BODIES).format(n=n) + "\n")
+        elif kind == "comment-eol":                      # the line break that ends the comment is the first character of the next block
+            c = ";" + rng.choice(COMMENT_BODIES).format(n=n)[:room - 2]
+            emit(_blanks(rng, room - len(c)) + c + "\n")
+        elif kind == "blank":
+            emit(_blanks(rng, room + rng.randint(1, 6)))
+        elif kind == "bracket-last":                     # the unit's first character (always a bracket or a bar) ends the block
+            emit(_blanks(rng, room - 1))
+        elif kind == "bracket-first":
+            emit(_blanks(rng, room))
+        elif kind == "marker":
+            m = "(Color " + rng.choice(COLORS) + ")"
+            emit(_blanks(rng, room - rng.randint(1, len(m) - 1)) + m + " ")
+        else:
+            if kind == "number":                         # the boundary lies inside a field of the point
+                f = rng.choice([k for k in range(4) if len(u[k]) > 1] or [0])
+                q = 1 + sum(len(x) + 1 for x in u[:f]) + rng.randint(1, max(1, len(u[f]) - 1))
+            else:                                        # anywhere inside the point, separators and brackets included
+                q = rng.randint(1, len(s) - 1)
+            emit(_blanks(rng, room - q))
+        used[kind] = used.get(kind, 0) + 1
+        emit(s + rng.choice([" ", "\n"]))
+        prev_point = isinstance(u, list)
+    return "".join(out), used
+
+
 class Convert(Suite):
     name = "c15.convert"
 
@@ -223,6 +332,50 @@ class Convert(Suite):
             else:
                 t2[i + rng.randint(1, 4)] = rng.choice(["1e", "1..2", "12abc", "0x10"])
             out.append({"class": "badpoint/" + kind, "text": " ".join(t2), "rows": None, "via": "stream"})
+        # malformed points, guaranteed share: one field is a word that a general-purpose number reader (CPython's float()) understands
+        # but that is not a number of the ASC grammar [-+]digits[.digits][e[-+]digits]: nan / inf / infinity, signed, in any case
+        for base in ("nan", "inf", "infinity"):
+            for _ in range(8 if big else 2):
+                word = rng.choice(["", "", "+", "-"]) + rng.choice([base, base.upper(), base.capitalize(), "".join(rng.choice([c, c.upper()]) for c in base)])
+                d = doc()
+                text, toks = render(rng, d, layout=False)
+                idx = [i for i, t in enumerate(toks) if t == "(" and i + 5 < len(toks) and toks[i + 5] == ")" and toks[i + 1] not in ("(", "Color")]
+                t2 = list(toks)
+                t2[rng.choice(idx) + rng.randint(1, 4)] = word
+                out.append({"class": "badpoint/float-word", "text": " ".join(t2), "rows": None, "via": rng.choice(["stream", "file"])})
+        # documents longer than a read buffer: something lies across every multiple of `step` characters from the start of the stream
+        # (multiples of 512 → every power-of-two block size up to the length of the document; multiples of 1000 → the decimal ones)
+        def blocks(name, step, kinds, p_comment, longer_than, **kw):
+            npts = max(50, longer_than // (45 if p_comment > 0.5 else 25))
+            while True:
+                d = (rng.choice(["Axon", "Dendrite"]), gen_long(rng, npts), rng.choice([None, None, "Blue"]))
+                text, used = render_blocks(rng, d, step, kinds, p_comment)
+                if len(text) > longer_than:
+                    break
+                npts = npts * 4 // 3
+            c = {"class": "blocks/" + name, "text": text, "rows": _ser(expected_rows(d)), "via": rng.choice(["stream", "file"]),
+                 "step": step, "across": used, "big": len(text) > 20000}
+            c.update(kw)
+            out.append(c)
+            return c
+
+        some = lambda: rng.sample(BLOCK_KINDS, rng.randint(2, 4))                                   # noqa: E731
+        # end-of-line comments (a traced file has one on most lines) across every multiple of 512 up to 128 KiB
+        blocks("comment", 512, ["comment"], 0.9, (1 << 17) + 600)
+        c = blocks("mixed", 512, BLOCK_KINDS, 0.05, (1 << 16) + 600)
+        blocks("decimal", 1000, BLOCK_KINDS, rng.choice([0.05, 0.5]), 66000)
+        for _ in range(20 if big else 4):                                                          # a few blocks long, many layouts
+            blocks("small", rng.choice([512, 1000, 1024]), some(), rng.choice([0, 0.1, 0.9]), rng.choice([1500, 3000, 6000]))
+        if big:
+            blocks("comment", 4096, ["comment"], 0.9, (1 << 20) + 5000)
+            blocks("mixed", 4096, BLOCK_KINDS, 0.1, (1 << 20) + 5000)
+            for _ in range(6):
+                blocks("mixed", rng.choice([512, 1000, 4096, 8192]), some(), rng.choice([0, 0.1, 0.9]), rng.choice([70000, 140000, 270000]))
+        # … and a long document that ends prematurely exactly at the end of a block
+        for _ in range(4 if big else 1):
+            end = c["text"].rindex(")")
+            cut = rng.randrange(c["step"], end, c["step"])
+            out.append({"class": "truncated/at-block", "text": c["text"][:cut], "rows": None, "via": rng.choice(["stream", "file"]), "big": True})
         return out
 
     def run(self, case):
@@ -265,12 +418,14 @@ class Convert(Suite):
     def oracle(self, case, res):
         want = case["rows"]
         short = case["text"] if len(case["text"]) < 300 else case["text"][:300] + "…"
+        if case["class"].startswith("blocks/"):
+            short = f"document of {len(case['text'])} characters, {sorted(case['across'])} across every multiple of {case['step']} characters: " + short
         if want is None:
             if "exc" in res:
                 return [] if res["exc"] == "ValueError" else [("asc-wrong-error", f"{case['class']}: raised {res['exc']} instead of a ValueError: {short!r}")]
             return [(f"asc-accepted/{case['class'].split('/')[0]}", f"{case['class']} document converted to {res['n']} node(s) instead of being rejected: {short!r}")]
         if "exc" in res:
-            key = "asc-rejected/" + (case["class"].split("/")[1] if case["class"].startswith("named/") else case["class"])
+            key = "asc-rejected/" + (case["class"].split("/")[1] if case["class"].startswith("named/") else case["class"].split("/")[0])
             return [(key, f"well-formed document rejected with {res['exc']}: {res.get('msg')}: {short!r}")]
         if res["n"] != len(want):
             return [("asc-node-count", f"{res['n']} nodes for {len(want)} points: {short!r}")]
